@@ -61,6 +61,16 @@ class Suite:
             doc, cli, rej = D.translate(self.qmluic, self.work, chunk)
             for p, msg in rej:
                 self.rejected[msg.strip()[:60]] += 1
+                if msg.startswith('PANIC'):
+                    # a program of the documented subset makes the translator crash: no .ui, no header for the whole file
+                    d = C.new_replay_dir(self.res.prop, 'panic-%d' % (len(self.res.violations) + 1))
+                    with open(os.path.join(d, 'Doc.qml'), 'w') as f:
+                        f.write(D.Doc([p]).text)
+                    with open(os.path.join(d, 'README.txt'), 'w') as f:
+                        f.write('qmluic generate-ui --foreign-types /repo/contrib/metatypes --foreign-types /verif/data/vnode_metatypes.json Doc.qml\n' + msg + '\n')
+                    self.res.violation({'site': 'translator panic', 'message': msg[:80]},
+                                       f'the translator panics on a well-typed {p.kind} of the corpus ({msg}):\n{p.source()}', d)
+                    continue
                 if not msg.startswith(('integer overflow', 'integer conversion')):
                     self.unexpected_rejections.append({'source': p.source(), 'message': msg})
             if doc is None:
